@@ -1,6 +1,7 @@
 package checks
 
 import (
+	"errors"
 	"fmt"
 	"os"
 	"path/filepath"
@@ -43,6 +44,9 @@ func (s *scriptStrategy) Report(c <-chan *asset.Snapshot) *helper.Report {
 
 // recorder is a backtest.Report that records the protocol.
 type recorder struct {
+	// fail makes Write report an error for the chosen (asset, strategy) pairs - after it has consumed its streams, so that
+	// the injected fault strands nobody; the backtest must go on with the remaining strategies and assets
+	fail  func(asset, strategy string) bool
 	calls []string
 	res   map[string][]float64 // "asset/strategy" -> outcomes
 	acts  map[string][]int
@@ -80,6 +84,9 @@ func (r *recorder) Write(name string, s strategy.Strategy, sn <-chan *asset.Snap
 	r.calls = append(r.calls, "write "+name+"/"+s.Name())
 	r.res[name+"/"+s.Name()] = outs
 	r.acts[name+"/"+s.Name()] = acts
+	if r.fail != nil && r.fail(name, s.Name()) {
+		return errors.New("injected report failure")
+	}
 	return nil
 }
 func (r *recorder) AssetEnd(name string) error {
@@ -92,20 +99,21 @@ func (r *recorder) End() error {
 }
 
 type btScen struct {
-	NAssets  int
-	Strats   int // index into strategy list variants
-	Workers  int
-	Report   string // recorder | data | html
-	Explicit bool
-	Missing  int    // number of names that are not in the repository, listed first
-	Mode     string // dpor | s0
-	NoStrat  bool   // HTML: do not render the per-strategy reports (they are private to one worker and dominate the cost)
-	LastDays int    // look-back in days (0: the scenarios' default of 5); values of 10 and more cover the whole repository
-	Twice    bool   // Run is called twice on the same Backtest and report object; the second run is judged like the first
+	NAssets   int
+	Strats    int // index into strategy list variants
+	Workers   int
+	Report    string // recorder | data | html
+	Explicit  bool
+	Missing   int    // number of names that are not in the repository, listed first
+	Mode      string // dpor | s0
+	NoStrat   bool   // HTML: do not render the per-strategy reports (they are private to one worker and dominate the cost)
+	FailWrite int    // recorder only: 1 = Write fails for the first strategy of the first asset, 2 = for every strategy of the first asset, 3 = for the first strategy of every asset
+	LastDays  int    // look-back in days (0: the scenarios' default of 5); values of 10 and more cover the whole repository
+	Twice     bool   // Run is called twice on the same Backtest and report object; the second run is judged like the first
 }
 
 func (s btScen) String() string {
-	return fmt.Sprintf("assets=%d unknown-names=%d strategies=#%d workers=%d report=%s explicit=%v mode=%s strategyReports=%v runs=%d lastDays=%d", s.NAssets, s.Missing, s.Strats, s.Workers, s.Report, s.Explicit, s.Mode, !s.NoStrat, map[bool]int{false: 1, true: 2}[s.Twice], max(s.LastDays, 5))
+	return fmt.Sprintf("assets=%d unknown-names=%d strategies=#%d workers=%d report=%s explicit=%v mode=%s strategyReports=%v runs=%d lastDays=%d failingWrites=%d", s.NAssets, s.Missing, s.Strats, s.Workers, s.Report, s.Explicit, s.Mode, !s.NoStrat, map[bool]int{false: 1, true: 2}[s.Twice], max(s.LastDays, 5), s.FailWrite)
 }
 
 func btStrategies(v int) []strategy.Strategy {
@@ -178,6 +186,19 @@ func btScenario(s btScen) explore.Scenario {
 			}
 			var rep backtest.Report
 			rec := &recorder{res: map[string][]float64{}, acts: map[string][]int{}}
+			if s.FailWrite > 0 {
+				firstStrat := btStrategies(s.Strats)[0].Name()
+				fw := s.FailWrite
+				rec.fail = func(a, st string) bool {
+					switch fw {
+					case 1:
+						return a == assetName(0) && st == firstStrat
+					case 2:
+						return a == assetName(0)
+					}
+					return st == firstStrat
+				}
+			}
 			var data *backtest.DataReport
 			switch s.Report {
 			case "recorder":
@@ -461,6 +482,14 @@ func btScens(tier string) []btScen {
 					}
 				}
 			}
+		}
+	}
+	// a report whose Write fails for some pairs (an unwritable file, a full disk): every other pair is still delivered, in
+	// order, and every asset is ended
+	for fw := 1; fw <= 3; fw++ {
+		for _, sv := range []int{1, 2} {
+			out = append(out, btScen{NAssets: 2, Strats: sv, Workers: 1, Report: "recorder", Explicit: true, Mode: "s0", FailWrite: fw})
+			out = append(out, btScen{NAssets: 2, Strats: sv, Workers: 2, Report: "recorder", Explicit: true, Mode: "dpor", FailWrite: fw})
 		}
 	}
 	// look-backs from two weeks to "everything" (the command line tool's -last flag): whatever the number of days, the window
